@@ -51,7 +51,10 @@ func (r *rawRequest) IsValid() (valid bool) {
 		return
 	}
 	for _, v := range b.Array {
-		if v.Type != BulkString {
+		// a null bulk string ("$-1") is not an argument: written to a node as it
+		// is, it is a protocol error there and the node closes the connection
+		// that all downstream clients share.
+		if v.Type != BulkString || v.Text == nil {
 			return
 		}
 	}
